@@ -194,3 +194,45 @@ fn fail_twin() {
     let (r, _) = press(&mut cli, Key::Backspace);
     assert!(r.is_ok(), "twin: must be reported as FAILED");
 }
+
+/// Help for a command of a two-member command group, sink failing at a symbolic
+/// call position: the error must come back from the call (a later member of the
+/// group must not turn it into "unknown command").
+#[cfg(all(feature = "help", feature = "autocomplete"))]
+#[kani::proof]
+#[kani::unwind(16)]
+fn fail_group_help() {
+    use crate::c11_derived::Grp;
+    let pre = Pre {
+        ebuf: [0; N],
+        cursor: 0,
+        valid: 0,
+        count: 0,
+        hbuf: [0; H],
+        hcursor: None,
+        hused: 0,
+        prompt: 1,
+    };
+    let mut cli = build(&pre, any_fail_sink());
+    let which: u8 = kani::any();
+    kani::assume(which < 3);
+    let raw = match which {
+        0 => "help\0go",
+        1 => "help\0led",
+        _ => "go\0-h",
+    };
+    let mut calls = 0usize;
+    let r = {
+        let mut p = RawCommand::processor(|_h: &mut CliHandle<'_, FailSink, Fault>, _c: RawCommand<'_>| {
+            calls += 1;
+            Ok(())
+        });
+        cli.__verif_process_input::<Grp<'_>, _>(Tokens::from_raw(raw, false), &mut p)
+    };
+    let failed = cli.__verif_writer().failed;
+    assert!(calls == 0, "C12: help requests never reach the handler");
+    assert!(r.is_err() == failed, "C14: the call returns the error iff the sink failed during it");
+    kani::cover!(failed && which == 0 && !cli.__verif_writer().permanent, "transient failure while printing help of the first member's command");
+    kani::cover!(failed && which == 1, "failure while printing help of the second member's command");
+    kani::cover!(!failed && cli.__verif_writer().calls > 3, "help printed completely");
+}
